@@ -38,11 +38,13 @@ def C11.refusalError (cfg : Cfg) (s : St) (p : Pkt) : Nat :=
   else if C11.tooLarge cfg s p then eTooLarge
   else eNotAllowed
 
-/-- the identifier a refused call gives back: none for a version or role refusal; for a state
-    refusal the identifier of a QoS>0 PUBLISH (of any v5.0 PUBLISH carrying one when it is too
-    large), of a SUBSCRIBE, of an UNSUBSCRIBE -/
+/-- the identifier a refused call gives back.  For a version or role refusal (fix 1d0ef05; before
+    it: none): the identifier the packet was given to start an exchange — `initiatingId p`, that
+    of a PUBLISH / SUBSCRIBE / UNSUBSCRIBE carrying one.  For a state refusal: the identifier
+    of a QoS>0 PUBLISH (of any v5.0 PUBLISH carrying one when it is too large), of a SUBSCRIBE,
+    of an UNSUBSCRIBE.  Every refusal now has the same shape. -/
 def C11.refusalRelease (cfg : Cfg) (s : St) (p : Pkt) : Option Nat :=
-  if s.ver ≠ p.ver ∨ Spec.roleMaySend cfg.role p.kind p.ver = false then none
+  if s.ver ≠ p.ver ∨ Spec.roleMaySend cfg.role p.kind p.ver = false then initiatingId p
   else match p.kind with
     | .publish => if C11.tooLarge cfg s p ∨ p.qos > 0 then p.pid else none
     | .subscribe | .unsubscribe => some (p.pid.getD 0)
@@ -359,11 +361,18 @@ example : Spec.PktWf C11.exBigPub ∧
       C11.exState.needStore C11.exState.offline = false ∧
     (step C11.exCfg C11.exState (.send C11.exBigPub)).ev = [.error 0x95, .released 7] := by
   decide
-/-- CONNACK from a client: role refusal; v3.1.1 SUBSCRIBE on a v5.0 connection: version
-    refusal — neither releases the identifier, the state is literally unchanged -/
+/-- CONNACK from a client: role refusal of a packet without identifier — the state is literally
+    unchanged; v3.1.1 SUBSCRIBE on a v5.0 connection: version refusal — identifier 7 is released
+    like in every other refusal (fix 1d0ef05; before it the identifier stayed in use) -/
 example : (step C11.exCfg C11.exState (.send C11.exConnack)).ev = [.error 0x184] ∧
-    (step C11.exCfg C11.exState (.send C11.exV3Sub)).ev = [.error 0x189] ∧
-    (step C11.exCfg C11.exState (.send C11.exV3Sub)).s = C11.exState := by
+    (step C11.exCfg C11.exState (.send C11.exConnack)).s = C11.exState ∧
+    C11.refusalRelease C11.exCfg C11.exState C11.exV3Sub = some 7 ∧
+    (step C11.exCfg C11.exState (.send C11.exV3Sub)).ev = [.error 0x189, .released 7] ∧
+    isUsed (step C11.exCfg C11.exState (.send C11.exV3Sub)).s 7 = false := by
+  decide
+/-- SUBSCRIBE sent by a server-role object: role refusal, identifier released -/
+example : (step ⟨.server, 2⟩ C11.exState (.send C11.exSub)).ev = [.error 0x184, .released 7] ∧
+    isUsed (step ⟨.server, 2⟩ C11.exState (.send C11.exSub)).s 7 = false := by
   decide
 /-- the allocator of the example refines the set {7} -/
 example : Alloc.R C11.exState.pidMan C11.exSet where
